@@ -1220,6 +1220,9 @@ func c12RunTimeout(rig *c12Rig, c c12Case, res *c12Result) {
 			res.fail("timeout-grammar:accepts-"+class+":"+pname,
 				"%s timeout %q is not in the protocol's grammar (%s) but was accepted: context timeout=%s echoed timeout_ms=%s feedback=%q",
 				pname, s, class, c12I64(to.CtxTimeout), c12I64(to.EchoMs), obs.Lines)
+			if len(to.HeaderAtInner) != 0 {
+				res.fail("timeout-header-not-removed:invalid:"+pname, "%s timeout %q (not in the grammar: %s): header still present when the inner handler runs: %q", pname, s, class, to.HeaderAtInner)
+			}
 			return
 		}
 		res.outcome = "timeout:" + pname + ":rejected:" + class
@@ -1228,6 +1231,12 @@ func c12RunTimeout(rig *c12Rig, c c12Case, res *c12Result) {
 		}
 		if to.HasDeadline {
 			res.fail("timeout-enforced:deadline-set", "invalid timeout %q produced a context deadline", s)
+		}
+		// "removed so the server does not enforce it": whatever the header says, the RPC layer behind the
+		// middleware has a timeout parser of its own (more lenient than the grammar), so a header that is
+		// present - valid or not - must be gone from the header map the inner handler gets
+		if len(to.HeaderAtInner) != 0 {
+			res.fail("timeout-header-not-removed:invalid:"+pname, "%s timeout %q is not in the grammar (%s); it was reported, but the header is still present when the inner handler runs: %q (the RPC layer would parse and enforce / refuse it)", pname, s, class, to.HeaderAtInner)
 		}
 		return
 	}
